@@ -77,7 +77,7 @@ def native_validate(ck, results, per_job=4):
             if rc != 0 or nat_reach != sym_reach:
                 bad += 1
                 rep, desc = driver.classify_native(rc, out, err)
-                keep = os.path.join(common.VERIF, 'replays', ck.prop, 'native-%s-%d-%d.txt' % (r.params.get('shape'), r.params.get('schema'), i))
+                keep = os.path.join(common.OUT, 'replays', ck.prop, 'native-%s-%d-%d.txt' % (r.params.get('shape'), r.params.get('schema'), i))
                 driver.write_replay(keep, smp['inputs'], {'property': ck.prop, 'harness': h, 'entry': r.entry, 'params': r.params, 'kind': 'native-divergence', 'message': desc, 'inputs': smp['inputs']})
                 if rep and 'VERIF-ASSERT-FAILED' in str(desc) and re.search(ck.assert_filter, str(desc)):
                     # the executor (over the SQLite model) passed this history, the real library over the real SQLite fails the property's assertion
